@@ -148,23 +148,7 @@ Definition c19_model (cs : c19case) : string :=
   String.concat "" (map (show_kafka (cs_conv cs)) out).
 
 (* ---------------------------------------------------------------- hypotheses *)
-Definition value_in_range (v : value) : bool :=
-  match v with
-  | VU8 n => (n <? 256)%N | VU16 n => (n <? 65536)%N
-  | VU32 n | VDts n => (n <? 4294967296)%N
-  | VU64 n | VDtms n => (n <? 18446744073709551616)%N
-  | _ => true
-  end.
-Definition elem_ok (e : elem) : bool := value_in_range (e_val e).
-Definition elem_utf8 (e : elem) : bool :=
-  match e_val e with VStr s => valid_utf8 s | VIP _ => valid_utf8 (e_ipstr e) | _ => true end.
-Definition msg_typed (c : convertor) (m : kmsg) : bool :=
-  (k_time m <? 4294967296)%N && (k_seq m <? 4294967296)%N && (k_dom m <? 4294967296)%N &&
-  forallb (fun r => well_typed_record c r && forallb elem_ok r) (records_of m).
-Definition msg_utf8 (m : kmsg) : bool :=
-  valid_utf8 (k_addr m) && forallb (forallb elem_utf8) (records_of m).
-(* well-typed: every mapped element has the element kind its getter expects (no getter panic) and
-   numbers fit their Go types *)
+(* msg_typed / msg_utf8: Model/Kafka.v *)
 Definition typed_case (cs : c19case) : bool := forallb (msg_typed (cs_conv cs)) (cs_msgs cs).
 (* the hypothesis surfaced by the proof (finding F10): all strings are valid UTF-8 *)
 Definition utf8_case (cs : c19case) : bool := forallb msg_utf8 (cs_msgs cs).
